@@ -4,6 +4,7 @@ from concurrent.futures import ThreadPoolExecutor
 from .. import core, pipe, metagen as MG
 from .c03 import report_compile_failures
 
+from ..core import COMMON_DIMENSIONS
 PROP = "C14"
 SIZES = dict(quick=dict(sample=250, mcV=2), thorough=dict(sample=4000, mcV=3))
 
@@ -54,6 +55,8 @@ def run(tier, seed, rep):
                        "quotes, backslashes, braces, non-ASCII) x serialize/to_string x serialize_all x prefix x disabled; all four getters on one "
                        "value (non-default payload) per variant, disabled ones included; distinct_nontrivial = (definition, variant) pairs with "
                        "at least one of message/detail/doc present")
+    rep.cov["rule"] += ' + one doc attribute holding newlines; #[doc(hidden)] / #[doc(alias)] among the doc lines; case-only spellings on case-insensitive variants'
+    rep.cov["rule"] += COMMON_DIMENSIONS
     rep.cov["samples"] = [dict(def_=e["def"], variant=e["i"], doc=[core.uncp(x) for x in e["doc"]], message=[core.uncp(x) for x in e["message"]]) for e in evs[:40] if e["op"] == "msg" and e["doc"]][:4]
     rep.assumptions += ["doc comments are written as #[doc = \"..\"] attributes (what /// desugars to)"]
     return rep
